@@ -22,7 +22,7 @@ from .. import impl  # noqa: F401  (sets NUMBA_DISABLE_JIT, silences logging)
 # S2: the velocity / velocity-gradient callables are re-traced from velocity.py on every run (harness/trace/tracer.py) and
 # lean/Bridge/Flow.lean re-proves traced = model for all six axis assignments, including the domain test and the singular corner.
 PRE_LEAN = C.s2_trace_velocity
-EXTRA_LEAN_MODULES = ("Bridge.Flow",)
+EXTRA_LEAN_MODULES = ("Bridge.Flow", "Bridge.StrainIncrement")
 
 PATHLINE_TIME_LIMIT_S = 30.0   # a returned pathline costs well under a second
 
